@@ -54,7 +54,7 @@ Proof.
   destruct (has_prefix (e_key e) (sp s)); cbn [negb andb] in *; [|injection H as <-; reflexivity].
   cbv zeta in H. fold (skey s e) in H. fold (tkey s e) in H.
   destruct (has_prefix (tkey s e) (tp s)); cbn [negb] in H; [|discriminate].
-  cbn [fx_copy_key fx_own_txid fx_tomb_deleted all_fixed] in H.
+  cbn [fx_copy_key fx_own_txid fx_tomb_deleted fx_skip_dead_prev all_fixed andb] in H.
   set (p1 := {| p_key := _; p_val := _; p_t := txID + i |}) in H.
   assert (Hp1 : kvt_of hd p1 =
                 mk_kvt (txID + i) (tkey s e, {| v_tx := t_id t; v_txmd := t_md t; v_md := e_md e; v_e := e |})).
@@ -77,10 +77,12 @@ Proof.
     { destruct (lookup_prev s h tb (skey s e) (txID + i - 1)) as [[ptid|]| |]; cbn [bind] in H; try discriminate.
       - destruct (nth_tx h ptid) as [pt|]; [|discriminate].
         destruct (find_entry (e_key e) pt) as [pe|]; [|discriminate].
+        destruct (kv_deleted (e_md pe)); [injection H as <-; reflexivity|].
         rewrite Htk, bytes_eqb_refl in H. injection H as <-; reflexivity.
       - injection H as <-; reflexivity. }
     subst ps. cbn [map]. rewrite Hp1. f_equal.
     destruct (prev_entry s _ e) as [[pt pe]|]; [|reflexivity].
+    destruct (kv_deleted (e_md pe)); [reflexivity|].
     rewrite Htk, bytes_eqb_refl. reflexivity.
   - (* another index *)
     unfold lookup_prev in H. rewrite Esrc in H. unfold prev_entry.
@@ -88,6 +90,7 @@ Proof.
     2:{ injection H as <-. cbn. rewrite Hp1. reflexivity. }
     apply last_tx_with_in in El. rewrite (wf_in_firstn _ _ _ Hwf El) in H.
     destruct (find_entry (e_key e) pt) as [pe|]; [|discriminate].
+    destruct (kv_deleted (e_md pe)); [injection H as <-; cbn; rewrite Hp1; reflexivity|].
     rewrite (bytes_eqb_sym (tkey s e)) in H.
     destruct (bytes_eqb (mapk (tmap s) (skey s e) (e_val pe)) (tkey s e)).
     + injection H as <-. cbn. rewrite Hp1. reflexivity.
